@@ -407,16 +407,18 @@ class RequestWideParams(object):
         #  maybe when we make group_policy optional.
         limit = req.GET.getall('limit')
         # JSONschema has already confirmed that limit has the form
-        # of an integer.
+        # of an integer. It validated dict(req.GET), which holds the last
+        # value of a repeated parameter, so that is the one to use.
         if limit:
-            limit = int(limit[0])
+            limit = int(limit[-1])
 
         # TODO(efried): Make it an error to specify group_policy more than once
         #  - maybe when we make it optional.
         group_policy = req.GET.getall('group_policy') or None
         # Schema ensures we get either "none" or "isolate"
         if group_policy:
-            group_policy = group_policy[0]
+            # As for limit: the last value is the validated one.
+            group_policy = group_policy[-1]
 
         anchor_required_traits = None
         anchor_forbidden_traits = None
